@@ -17,6 +17,9 @@ def main():
     if pid in ("C14", "C15"):
         from . import net_checks
         return {"C14": net_checks.run_c14, "C15": net_checks.run_c15}[pid](rest)
+    if pid in ("C07", "C18"):
+        from . import codec_checks
+        return {"C07": codec_checks.run_c07, "C18": codec_checks.run_c18}[pid](rest)
     if pid == "C05":
         from . import c05
         return c05.run(rest)
